@@ -17,7 +17,11 @@ PROPERTY = {
             "lemma_answer_unique": "at most one tablet of a well-formed map covers a token",
         }, carries_lemmas=("lemma_history_wf", "lemma_history_no_stale", "lemma_history_latest_wins", "lemma_answer_unique")),
     ],
-    "kani": [],
+    "timeout": 900,
+    "kani": [
+        Harness("c15_twin_add_tablet", "C15.twin.add_tablet", "BOUNDED", "same post-condition as the Verus contract of add_tablet, on the compiled code", bound="lists of <= 3 tablets, full i64 ranges", twin=True, functions=["scylla/src/routing/locator/tablets.rs:TableTablets::add_tablet"]),
+        Harness("c15_twin_tablet_for_token", "C15.twin.tablet_for_token", "BOUNDED", "same post-condition as the Verus contract of tablet_for_token, on the compiled code", bound="lists of <= 3 tablets, full i64 ranges", twin=True, functions=["scylla/src/routing/locator/tablets.rs:TableTablets::tablet_for_token"]),
+    ],
     "trusted_base": [
         "Verus/Z3 soundness",
         "std: <[T]>::partition_point returns the partition point of a partitioned slice (documented contract)",
